@@ -351,8 +351,11 @@ def wholerun_oracle(ctx):
     if not os.path.exists(path):
         ctx.note("whole-run oracle skipped: harness/wholerun.py absent")
         return
-    from harness.props import _sched_wholerun as W
-
+    try:
+        from harness.props import _sched_wholerun as W
+    except ImportError:
+        ctx.note("whole-run oracle skipped: harness/props/_sched_wholerun.py absent")
+        return
     W.run_c07(ctx)
 
 
